@@ -635,6 +635,30 @@ def c15(ctx):
                         maxsched=600 if q else 8000)
     # fragments carry instance tags of their own: Frag.tla says which instance the conversation is bound to
     frag_model(ctx, sender=False)
+    c15_multi(ctx)
+
+
+MULTI_INV = ["BystanderIgnored", "DeliveredFromBound", "PairedWithBound", "OtherNeverSecure", "NoBoundReject", "QuietImpliesPaired"]
+
+
+def c15_multi(ctx):
+    """One account logged in from two clients (OTRMulti.tla): three real conversations, A's messages reach both clients."""
+    q = ctx.quick()
+    QA, QB, QC = dict(a="Query", p="A"), dict(a="Query", p="B"), dict(a="Query", p="C")
+    starts = [("qA", [QA], 1, True), ("qB", [QB], 0 if q else 1, True)] + \
+             ([] if q else [("qBC", [QB, QC], 0, True), ("qAB", [QA, QB], 1, False), ("qBA", [QB, QA], 1, False), ("qABC", [QA, QB, QC], 0, False)])
+    for nm, prel, ms, live in starts:
+        c = dict(Multi=True, PolA=2, PolB=2, PolC=2, Prelude=prel, MaxSend=ms, MaxFlight=2)
+        ctx.model("c15-multi-" + nm, c, MULTI_INV, ["BoundStable"])
+        if live:
+            ctx.model("c15-multi-live-" + nm, dict(c, MaxSend=0), [], ["Completes"], spec="FairSpec")
+        ctx.export_validate("c15x-multi-" + nm, c, "multi", maxsched=120 if q else 6000)
+    # life of the binding: End and a new start by any of the three
+    c = dict(Multi=True, PolA=2, PolB=2, PolC=2, Prelude=[QA], MaxSend=0 if q else 1, MaxFlight=2, MaxEnd=1, MaxQuery=0 if q else 1)
+    ctx.model("c15-multi-life", c, ["BystanderIgnored", "DeliveredFromBound", "PairedWithBound", "OtherNeverSecure"], ["BoundStable"])
+    ctx.export_validate("c15x-multi-life", c, "multi-life", maxsched=120 if q else 6000)
+    # non-vacuity: version 2 has no instance tags, the same situation mixes the two clients up
+    ctx.model_expect_violation("c15-multi-v2", dict(Multi=True, PolA=1, PolB=1, PolC=1, Prelude=[QA], MaxSend=1, MaxFlight=2), MULTI_INV, kf={})
 
 
 def c16(ctx):
@@ -817,6 +841,8 @@ def c08(ctx):
     ctx.random_validate("life", 32 if q else 320, 60 if q else 150, run_extra=scan)
     ctx.random_validate("errlife", 32 if q else 320, 60 if q else 150, run_extra=scan)
     ctx.random_validate("smp", 8 if q else 80, 3, run_extra=scan)
+    # an SMP run in every stage / with every outcome, then End and the peer's disconnect: its secrets are session secrets
+    ctx.random_validate("smpend", 64 if q else 256, 1, run_extra=scan)
     ctx.random_validate("bagsess", 16 if q else 160, 80, run_extra=scan)
 
 
@@ -832,7 +858,9 @@ def c10(ctx):
     ctx.model("c10-data", dict(DATA33, MaxSend=3, MaxFlight=3, MaxExtra=1), inv)
     ctx.export_validate("c10x-v3", dict(DATA33, MaxSend=2, MaxFlight=2, MaxTick=1, MaxExtra=1), "fifo-data", drain=True, maxsched=1200 if q else None)
     ctx.export_validate("c10x-v2", dict(PolA=1, PolB=1, Setup="ake", MaxSend=2, MaxFlight=2, MaxExtra=1), "fifo-data", drain=True, maxsched=600 if q else None)
-    for name in (("both", "tag") if q else ("queryA", "both", "both-v2", "tag", "req", "err", "refresh")):
+    # offers (query, whitespace tag) between parties whose version sets differ: what is offered and what is read from an offer
+    mixed = ("tag-v2only", "tag-v3only", "tag-fromv2", "query-v3only", "req-mixed")
+    for name in ((("both", "tag") if q else ("queryA", "both", "both-v2", "tag", "req", "err", "refresh")) + mixed):
         pol, prelude = STARTS[name]
         ctx.export_validate("c10x-" + name, dict(pol, Prelude=prelude, MaxFlight=4, MaxSend=1), "none", drain=True, maxsched=300 if q else None)
     ctx.export_validate("c10x-smp", dict(SMPCFG, MaxSMPStart=1, MaxSMPAnswer=1, Secrets=[4]), "none", drain=True, maxsched=100 if q else None)
